@@ -37,6 +37,11 @@ CLAIMED = {
         "Decides that the dual-map allocator releases file name, descriptor and first mapping on every failure exit, that every OS/allocator result is first compared with its own failure sentinel, that the acquisition chain gives up only after all methods, that a failed init probe always forces backup+emulate, and that executor dispatch calls exactly one implementation once on every path. Equality of fallback results with emulation is not decided.",
         "Trusted: clang CFG; POSIX failure sentinels (mkstemp -1, ftruncate <0, mmap MAP_FAILED). OOM exits of realloc are out of scope.",
         "DESIGN.md §4 C06"),
+    "C16": (
+        "ownership analysis: owning-field sets computed from all stores of fresh allocations/transfers vs destructor release sets (R-OWN); acquire/release typestate on compile-driver exits and allocating-helper callers (R-PAIR); path search for overwrite-without-release in setters; move/null discipline",
+        "Decides that every heap-owning field of OrcProgram, OrcCode, OrcBytecode, OrcParseError and the parser object is released by its destructor/scope, that every exit of orc_compiler_compile_program frees the compiler and the same scratch set, that strings from _orc_getenv/strsplit are freed by their callers, that setters release the old value, that take_code/asm_code moves do not leave two owners, and that resets null what they free. Use-after-free across API histories is not decided.",
+        "Trusted: allocator/releaser tables in lib/ownership.py; process-lifetime registries are not instances.",
+        "DESIGN.md §4 C16"),
 }
 
 NOT_YET = "check under construction in this round; not claimed until its rules are exact on the current tree"
